@@ -32,7 +32,7 @@ BODIES["long-latin"] = "<OFX><A>" + "caf\u00e9 " * 30000 + "</A><B><C>z</C></B><
 LONG = [b for b in BODIES if b.startswith("long-")]
 SEPS = ["\r\n", "\n", "\r", ""]
 GAPS = ["\r\n\r\n", "", "\n", "\r\n", "\r", "\r\n\r\n\r\n"]
-LEADS = ["", "\r\n", "\n\n"]
+LEADS = ["", "\r\n", "\n\n", "\r", "\r\r"]
 
 
 def encodable(body, charset):
@@ -318,7 +318,7 @@ def run(ctx):
     cov = {
         "evaluations": tally.counts.get("evaluations", 0),
         "distinct_nontrivial": tally.counts.get("evaluations", 0) - 1,
-        "rule": "v1: full product uniform separator {CRLF,LF,CR,none} x blanks after colon {0,1,2} x leading blank lines {0,1,2} x gap "
+        "rule": "v1: full product uniform separator {CRLF,LF,CR,none} x blanks after colon {0,1,2} x leading blank lines {0,1,2; CRLF, LF or CR} x gap "
         "{blank line,none,LF,CRLF,CR,two blank lines} x COMPRESSION present/absent x every (charset, body) pair encodable (7 bodies: ascii, e-acute, text whose single-byte encoding is valid UTF-8, "
         "cp1252-only, C1 control, UTF-8 multi-byte, multi-line) with encoding/version/security rotating; all field-value combinations on the standard layout; "
         "separators deviating at <=2 of 8 boundaries from each uniform layout x gaps x 3 bodies; v2: 7 versions x quote x standalone x encoding attr x "
